@@ -244,7 +244,7 @@ pub fn scenarios(tier: Tier) -> Vec<Scenario> {
         for k1 in [Callback, Crossbeam] {
             for k2 in [Callback, Crossbeam] {
                 for (pre, post) in [(0, 1), (1, 0), (1, 1), (0, 2)] {
-                    add(vec![r(k1, pre, post, 0, false), r(k2, post, pre, 1, false)], 2);
+                    add(vec![r(k1, pre, post, 0, false), r(k2, post, pre, 1, false)], if pre + post == 1 { 3 } else { 2 });
                 }
             }
         }
